@@ -1,6 +1,9 @@
 package main
 
-func init() { register("C01", runC01) }
+func init() {
+	register("C01", runC01)
+	rsExtra["C01"] = rsFineFamily
+}
 
 func runC01(cfg *runCfg) error {
 	n := 350
